@@ -46,7 +46,7 @@ CHECKS = {
 CHECKS.update({
  "C05": ("model_checking",
          "SignFlow.tla (sign -> edit -> verify machine with ideal signatures) model-checked by TLC: the commitment table is derived for every shape/position/hash type/edit; real sign/edit/verify histories are validated by TLC evaluating the whole VerifyScript (ScriptVM.tla) with ECDSA on secp256k1 (Curve.tla) and the table's prediction (Trace_ScriptVM flow.verify)",
-         "TLC explores every history of the ideal-signature machine up to 3x3 transactions (exhaustive for the catalogue); each recorded real history (template x hash type x position x edit) is re-evaluated in the spec with the actual signatures; quick samples a third of the template x type grid, thorough takes all",
+         "TLC explores every history of the ideal-signature machine up to 3x3 transactions (exhaustive for the catalogue); each recorded real history (template x hash type x position x edit) is re-evaluated in the spec with the actual signatures; in the other direction every history TLC explores on the ideal scheme (MC_SignFlowReplay: all shapes <=2x2 quick / <=3x3 thorough x position x 9 hash types x edit) is performed with a real key, RawSignatureHash and VerifyScript and must give the specification's verdict; quick samples a third of the template x type grid, thorough takes all",
          TB + "; curve formulas model-checked exhaustively only on a toy curve", "DESIGN.md section 3 C05"),
  "C09": ("model_checking",
          "ValueSem.tla (heap of transaction objects with explicit references; Freeze/Thaw copy discipline) model-checked by TLC (immutables closed and stable, no shared mutable sub-object, edits independent) with EVERY reached state replayed into real objects (spec->code), plus TLC-simulated long histories and an attribute-immutability probe",
@@ -61,7 +61,7 @@ CHECKS.update({
          "spec level: exhaustive single substitutions and the syndrome argument for up to three errors (lengths 39/59/87); implementation level: every single substitution by any printable character, every case class, truncation/extension and seeded 2-4-fold substitutions (all doubles in thorough) judged against the reference decoder",
          TB + "; 4-substitution detection is sampled, not proven", "DESIGN.md section 3 C11"),
  "C12": ("model_checking",
-         "Chain.tla/Address.tla: the selected chain as a state machine model-checked by TLC over all SelectParams histories <=3 with cross-chain re-parsing; recorded histories of SelectParams + conversions validated by TLC with the chain tracked as specification state (Trace_Address)",
+         "Chain.tla/Address.tla: the selected chain as a state machine model-checked by TLC over all SelectParams histories <=3 with cross-chain re-parsing; recorded histories of SelectParams + conversions validated by TLC with the chain tracked as specification state (Trace_Address); spec -> code: all 2,344 histories of MC_AddressReplay (<=3 selections incl. invalid names, one address made in between, parsed again at the end) are performed on the library step by step",
          "all selection histories to depth 3 at spec level; seeded histories at implementation level with every chain's texts, WIF strings, unsupported witness versions, wrong-length payloads, corruptions and junk parsed under the current chain",
          TB, "DESIGN.md section 3 C12"),
  "C13": ("model_checking",
@@ -81,15 +81,15 @@ CHECKS.update({
          "catalogue-exhaustive: every listed single-rule violation, in a later transaction and in the coinbase, under the chains' limits; proof of work ground for real at regtest difficulty",
          TB + "; commitment scripts of 38..39 bytes only", "DESIGN.md section 3 C16"),
  "C18": ("model_checking",
-         "P2P.tla (17 payload layouts, framing, stream parser) with the parser model-checked by TLC as a state machine over streams of <=2 frames with one fault; recorded framings and stream reads validated by TLC with the stream position as specification state (Trace_P2P)",
+         "P2P.tla (17 payload layouts, framing, stream parser) with the parser model-checked by TLC as a state machine over streams of <=2 frames with one fault; recorded framings and stream reads validated by TLC with the stream position as specification state (Trace_P2P); spec -> code: every finished run of the parser machine (MC_P2PReplay, ~25,000 faulty and fault-free streams) is fed to the real parser under the same chain and compared read by read (kind, message, position)",
          "spec level: all streams over a 7-message universe x chains x every header-byte corruption / truncation / hostile length; implementation level: all 17 types framed byte-exactly, every single-byte corruption and truncation of sampled frames, hostile lengths, multi-frame streams",
          TB + "; unknown command returns None after consuming exactly the frame (named deviation)", "DESIGN.md section 3 C18"),
  "C19": ("model_checking",
-         "Rpc.tla (call/reply protocol machine; exact decimal and reversed-hex codecs) model-checked by TLC over all call/reply histories <=3; recorded calls through an injected connection validated by TLC with the last request id as specification state (Trace_Rpc)",
+         "Rpc.tla (call/reply protocol machine; exact decimal and reversed-hex codecs) model-checked by TLC over all call/reply histories <=3; recorded calls through an injected connection validated by TLC with the last request id as specification state (Trace_Rpc); spec -> code: every reply history of MC_RpcReplay (66^2 quick / 66^3 thorough) is scripted into a real Proxy and the outcome class of every call and the ids on the wire compared",
          "protocol histories exhaustive at spec level; every recorded amount (raw JSON token), hash, object and error outcome checked against the reference",
          TB + "; request bodies re-tokenised with Python's json hooks", "DESIGN.md section 3 C19"),
  "C20": ("model_checking",
-         "Bloom.tla (MurmurHash3 x86_32 + BIP37 filter machine) model-checked by TLC over all insert/query/round-trip histories <=3 on small filters (incl. empty data) and the published Murmur vectors; recorded filter histories validated by TLC with the filter as specification state (Trace_Bloom)",
+         "Bloom.tla (MurmurHash3 x86_32 + BIP37 filter machine) model-checked by TLC over all insert/query/round-trip histories <=3 on small filters (incl. empty data) and the published Murmur vectors; recorded filter histories validated by TLC with the filter as specification state (Trace_Bloom); spec -> code: all 147,390 complete histories of MC_BloomReplay are performed on a real CBloomFilter started from the wire form, every answer and the final filter compared",
          "spec level: all short histories on small filters; implementation level: seeded histories on constructed and wire-arrived filters with the full filter compared after every call",
          TB + "; sizing formula only up to the protocol caps", "DESIGN.md section 3 C20"),
 })
